@@ -66,7 +66,7 @@ func genVariantModule(r *hx.Rand, npkgs int) []SrcFile {
 		for i := 0; i < nv; i++ {
 			objs = append(objs, fmt.Sprintf("_ = v%d", i), fmt.Sprintf("_ = c%d", i))
 		}
-		objs = append(objs, "_ = t0{}.a", "_ = t0{}.b", "t0{}.m0()", "t0{}.m1()", "var _ t1")
+		objs = append(objs, "_ = t0{}.a", "_ = t0{}.b", "t0{}.m0()", "t0{}.m1()", "var _ t1", "_ = t1{}.a", "t1{}.m0()")
 		refs := func(n int, extra []string) string {
 			var b strings.Builder
 			pool := append(append([]string(nil), objs...), extra...)
@@ -96,7 +96,7 @@ func genVariantModule(r *hx.Rand, npkgs int) []SrcFile {
 			}
 			fmt.Fprintf(w, "var v%d int\n\nconst c%d = %d\n\n", i, i, i)
 		}
-		bfile.WriteString("type t0 struct {\n\ta int\n\tb int\n}\n\nfunc (t0) m0() {}\n\nfunc (t0) m1() {\n" + refs(r.Intn(2), nil) + "}\n\ntype t1 struct{ x int }\n\n")
+		bfile.WriteString("type t0 struct {\n\ta int\n\tb int\n}\n\nfunc (t0) m0() {}\n\nfunc (t0) m1() {\n" + refs(r.Intn(2), nil) + "}\n\n// t1 repeats names of t0 on other lines: the merge key must keep them apart\ntype t1 struct {\n\tx int\n\ta int\n}\n\nfunc (t1) m0() {}\n\n")
 		out = append(out, SrcFile{pk + "/a.go", a.String()}, SrcFile{pk + "/b.go", bfile.String()})
 		hasIn, hasExt := r.Chance(75), r.Chance(50)
 		if hasIn {
